@@ -173,3 +173,113 @@ Example C12_hypotheses_satisfiable :
   selfadjoint R2Space A2 /\ posdef R2Space A2 /\ P_ok R2Space None /\ P_ok R2Space (Some A2).
 Proof. exact (conj A2_selfadjoint (conj A2_posdef (conj I (conj A2_selfadjoint A2_posdef)))). Qed.
 Print Assumptions C12_hypotheses_satisfiable.
+
+(* ===================================================================================================
+   ADDED (proofs/CGFinite.v, proofs/RnSpace.v): finite termination -- supersedes the "[stretch, NOT proved]"
+   remark above -- and the second inclusion span{p_i} <= K_k.
+
+   "dimension <= n" on the abstract space is the linear-algebra definition: any n+1 vectors are linearly
+   dependent (lincomb H f c m = sum_{i<m} c_i f_i). *)
+From SV Require Import proofs.Driver proofs.CGFinite proofs.RnSpace.
+
+Theorem C12_dim_le_def :
+  forall (H : IPSpace) (n : nat),
+    dim_le H n <->
+    (forall f : nat -> ipV H, exists c : nat -> R,
+       (exists i, (i <= n)%nat /\ c i <> 0) /\ lincomb H f c (S n) = ip0 H).
+Proof. exact dim_le_unfold. Qed.
+Print Assumptions C12_dim_le_def.
+
+(* the finite-dimension hypothesis in the form CG uses: n+1 pairwise A-orthogonal vectors contain one with
+   <v, A v> = 0 (for positive definite A: the zero vector) *)
+Theorem C12_conj_family_has_null :
+  forall (H : IPSpace) (A : ipV H -> ipV H), selfadjoint H A ->
+  forall n : nat, dim_le H n ->
+  forall f : nat -> ipV H,
+    (forall i j, (i < j)%nat -> (j <= n)%nat -> ipdot H (f j) (A (f i)) = 0) ->
+    exists i, (i <= n)%nat /\ ipdot H (f i) (A (f i)) = 0.
+Proof. exact conj_family_has_null. Qed.
+Print Assumptions C12_conj_family_has_null.
+
+(* [core] finite termination: in dimension <= n, n updates without breakdown (n <= max_iter, so the x-only final
+   update number max_iter is covered) leave x with A x = b.  A self-adjoint is enough; any tol. *)
+Theorem C12_cg_finite_solved :
+  forall (H : IPSpace) (A : ipV H -> ipV H) (b : ipV H) (P : option (ipV H -> ipV H)) (x0 : ipV H)
+         (max_iter : Z) (tol : R),
+    selfadjoint H A -> P_ok H P ->
+    forall n : nat, dim_le H n ->
+      (Z.of_nat n <= Z.max 0 max_iter)%Z ->
+      cg_npd (cg_seq (ops_of H) A b P x0 max_iter tol n) = false ->
+      A (cg_x (cg_seq (ops_of H) A b P x0 max_iter tol n)) = b.
+Proof. exact cg_finite_solved. Qed.
+Print Assumptions C12_cg_finite_solved.
+
+(* ... while r is still tracked (n <= max_iter - 1) the tracked residual is exactly 0 ... *)
+Theorem C12_cg_finite_resid :
+  forall (H : IPSpace) (A : ipV H -> ipV H) (b : ipV H) (P : option (ipV H -> ipV H)) (x0 : ipV H)
+         (max_iter : Z) (tol : R),
+    selfadjoint H A -> P_ok H P ->
+    forall n : nat, dim_le H n ->
+      let s := cg_seq (ops_of H) A b P x0 max_iter tol n in
+      ((Z.of_nat n <= Z.max 0 (max_iter - 1))%Z /\ cg_npd s = false) ->
+      cg_r s = ip0 H /\ A (cg_x s) = b.
+Proof. exact cg_finite_resid. Qed.
+Print Assumptions C12_cg_finite_resid.
+
+(* ... and an (n+1)-th update within the budget necessarily raises not_positive_definite *)
+Theorem C12_cg_finite_then_breakdown :
+  forall (H : IPSpace) (A : ipV H -> ipV H) (b : ipV H) (P : option (ipV H -> ipV H)) (x0 : ipV H)
+         (max_iter : Z) (tol : R),
+    selfadjoint H A -> P_ok H P ->
+    forall n : nat, dim_le H n ->
+      (Z.of_nat (S n) <= Z.max 0 max_iter)%Z ->
+      cg_npd (cg_seq (ops_of H) A b P x0 max_iter tol (S n)) = true.
+Proof. exact cg_finite_then_breakdown. Qed.
+Print Assumptions C12_cg_finite_then_breakdown.
+
+(* [core] "the exact solution is reached within n updates in n dimensions", end to end: the object
+   ConjugateGradient(A, b, x0, P, max_iter, tol = 0) with A self-adjoint positive definite, max_iter >= n >= dim,
+   driven by `while not alg.done(): alg.update()`, performs at most n updates and exits with A x = b
+   (whichever of the three stop reasons fires: budget, resid <= 0, or the breakdown guard). *)
+Theorem C12_cg_run_solves :
+  forall (H : IPSpace) (A : ipV H -> ipV H) (b : ipV H) (P : option (ipV H -> ipV H)) (x0 : ipV H)
+         (max_iter : Z),
+    selfadjoint H A -> posdef H A -> P_ok H P ->
+    forall n : nat, dim_le H n -> (Z.of_nat n <= max_iter)%Z ->
+      (run_updates (CGClass (ops_of H) A P) (cg_init (ops_of H) A b P x0 max_iter 0%R) <= n)%nat /\
+      A (cg_x (cg_run (ops_of H) A P (cg_init (ops_of H) A b P x0 max_iter 0))) = b.
+Proof. exact cg_run_solves. Qed.
+Print Assumptions C12_cg_run_solves.
+
+(* span{p_0..p_{k-1}} = K_k(PA, P r_0), both inclusions, for k <= K+1 while state K is healthy *)
+Theorem C12_cg_span_eq_krylov :
+  forall (H : IPSpace) (A : ipV H -> ipV H) (b : ipV H) (P : option (ipV H -> ipV H)) (x0 : ipV H)
+         (max_iter : Z) (tol : R),
+    selfadjoint H A -> P_ok H P ->
+    forall K k : nat,
+      let s := cg_seq (ops_of H) A b P x0 max_iter tol in
+      ((Z.of_nat K <= Z.max 0 (max_iter - 1))%Z /\ cg_npd (s K) = false) -> (k <= S K)%nat ->
+      (forall c, exists d, lincomb H (fun i => cg_p (s i)) c k
+                           = kcomb H A (cg_applyP (ops_of H) P) (fun i => cg_r (s i)) d k) /\
+      (forall d, exists c, kcomb H A (cg_applyP (ops_of H) P) (fun i => cg_r (s i)) d k
+                           = lincomb H (fun i => cg_p (s i)) c k).
+Proof. exact cg_span_eq_krylov. Qed.
+Print Assumptions C12_cg_span_eq_krylov.
+
+(* non-vacuity of dim_le: R, R^2 (proofs/IPSpace.v) and the coordinate space R^n = R * (R * (... * unit)) for every n;
+   with A = identity all hypotheses of C12_cg_run_solves hold in every dimension *)
+Theorem C12_R1_dim_le : dim_le R1Space 1.
+Proof. exact R1_dim_le. Qed.
+Theorem C12_R2_dim_le : dim_le R2Space 2.
+Proof. exact R2_dim_le. Qed.
+Theorem C12_Rn_dim_le : forall n : nat, dim_le (RnSpace n) n.
+Proof. exact Rn_dim_le. Qed.
+Example C12_finite_hypotheses_satisfiable :
+  forall n : nat,
+    dim_le (RnSpace n) n /\ selfadjoint (RnSpace n) (fun x => x) /\ posdef (RnSpace n) (fun x => x) /\
+    P_ok (RnSpace n) None.
+Proof. exact finite_hypotheses_satisfiable. Qed.
+Print Assumptions C12_R1_dim_le.
+Print Assumptions C12_R2_dim_le.
+Print Assumptions C12_Rn_dim_le.
+Print Assumptions C12_finite_hypotheses_satisfiable.
